@@ -46,6 +46,7 @@ func runC05(c *Ctx) {
 	sendTimerDiscipline(c, "C05.timer")
 	c.Borrow("C11", map[string]string{"C11.token": "C05.wakeup", "C11.wait-set": "C05.wait-set"}, "a lost wake-up leaves the sender asleep before the sync marker of a poll round: the poll is never answered")
 	c.Borrow("C09", map[string]string{"C09.query-table": "C05.query-table"}, "the snapshot is what ctree.Query selects: per node the query descent must reach every child a glob covers and exactly the named child otherwise, or matching leaves are missing from the ONCE/POLL answer")
+	contentWriters(c, "C05.handles-keep-value")
 	c.Borrow("C08", map[string]string{"C08.dup-clone": "C05.dup-clone"}, "a duplicate count written into the cached notification is returned by every later ONCE/POLL as a value no writer stored")
 	c.Rule("C05.once", "ONCE: Subscribe starts exactly one goroutine whose body is processSubscription followed unconditionally by queue.Close(), plus the sender; no registration with the match tree. sendStreamingResults: queue closed => errC <- nil and return without another Send")
 	c.Rule("C05.drain", "coalesce.Next never reports closed while items are pending (closed arm with Len()==1 retries next())")
